@@ -1,6 +1,13 @@
 import GdVerif.Run.Reader
 import GdVerif.Run.Valve
 import GdVerif.Run.GenValve
+import GdVerif.Run.Master
+import GdVerif.Run.Settings
+import GdVerif.Run.Views
+import GdVerif.Run.Games
+import GdVerif.Run.IdCheck
+import GdVerif.Run.Quake
+import GdVerif.Run.GenQuake
 import GdVerif.Run.Small
 /-
   gdmodel: the model behind a line protocol.
@@ -8,7 +15,7 @@ import GdVerif.Run.Small
 -/
 open Gd Gd.Run
 
-def allEntries : List (String × (List String → String)) := readerEntries ++ valveEntries ++ smallEntries
+def allEntries : List (String × (List String → String)) := readerEntries ++ valveEntries ++ masterEntries ++ settingsEntries ++ viewEntries ++ gameEntries ++ idCheckEntries ++ quakeEntries ++ smallEntries
 
 def runLine (line : String) : String :=
   match line.trimAscii.toString.splitOn " " with
@@ -36,10 +43,17 @@ def main (args : List String) : IO UInt32 := do
     | some seed, some n =>
       let lines := match suite with
         | "valve" => genValve seed n
+        | "quake" => genQuake seed n
         | s => (smallGen s seed n).getD []
       for l in lines do IO.println l
       return 0
     | _, _ => return 2
+  | ["gen", "valvefor", seed, n, eng, g] =>
+    match seed.toNat?, n.toNat?, parseEngine eng, parseGather g with
+    | some seed, some n, some eng, some g =>
+      for l in genValveWith (some (eng, g)) seed n do IO.println l
+      return 0
+    | _, _, _, _ => return 2
   | _ =>
     IO.eprintln "usage: gdmodel run | gen <suite> <seed> <n>"
     return 2
